@@ -155,6 +155,9 @@ func (ks *KafkaStorage) GetMessages(_ uint64) ([]storage.Message, error) {
 			}
 		}
 
+		// every record is decoded into a fresh message: a field missing from a record must not be inherited
+		// from the record read before it
+		message = storage.Message{}
 		if err = json.Unmarshal(kafkaMessage.Value, &message); err != nil {
 			log.Printf("failed to unmarshal a message %s: %s", string(kafkaMessage.Value), err.Error())
 			continue
